@@ -5,9 +5,10 @@ Pool == {[named |-> TRUE, rc |-> 0, writes |-> {}], [named |-> FALSE, rc |-> 0, 
          [named |-> TRUE, rc |-> 3, writes |-> {"f2.bin"}], [named |-> TRUE, rc |-> 0, writes |-> {"f1.txt", "f2.bin"}],
          [named |-> FALSE, rc |-> 1, writes |-> {}],
          [named |-> TRUE, rc |-> 137, writes |-> {"f1.txt"}]}     \* rc 137: the command is killed by a signal (kill -9 $$)
+\* env_path: the job's own envars override PATH and its commands name a program found only through that PATH
 \* rel_out / rel_scratch / rel_job: the runner is started with a RELATIVE output directory / scratch directory / job file
-FormsAll == {"full", "nofiles_none", "nofiles_empty", "noenv_none", "noenv_empty", "noret_none", "noret_empty", "rel_out", "rel_scratch", "rel_job"}
-FormsQ == {"full", "nofiles_none", "noenv_empty", "noret_none", "rel_out", "rel_scratch"}
+FormsAll == {"full", "nofiles_none", "nofiles_empty", "noenv_none", "noenv_empty", "noret_none", "noret_empty", "rel_out", "rel_scratch", "rel_job", "env_path"}
+FormsQ == {"full", "nofiles_none", "noenv_empty", "noret_none", "rel_out", "rel_scratch", "env_path"}
 DevNone == {}
 DevContinue == {"ContinueAfterFailure"}
 DevExitF == {"ExitIgnoresFailure"}
